@@ -34,7 +34,8 @@ def leaf(variant: dict, kernel_name: str | None = None) -> str:
 		f'\tdef __init__(self, value: {t}, count: int = 1) -> None:', '\t\tself.value = value', '\t\tself.count = count', '',
 		f'\tdef bumped(self) -> {t}:', '\t\tn = self.value', f'\t\treturn {step}', '', '',
 		# a generic class and a subclass that fixes its argument: the member's type is found through the subclass's bases
-		"T = TypeVar('T')", '', '',
+		# a comment the stock grammar drops in the lexer (a project grammar without that rule keeps it as a comment statement)
+		'# type: ignore', "T = TypeVar('T')", '', '',
 		'class Crate(Generic[T]):', '\tload: T', '', '\tdef __init__(self, load: T) -> None:', '\t\tself.load = load', '', '',
 		'class IntCrate(Crate[int]):', '\tdef __init__(self) -> None:', '\t\tsuper().__init__(1)', '', '',
 		f'def base_val() -> {t}:', f'\treturn {lit}', '', '',
